@@ -120,8 +120,8 @@ var Wrappers = []Wrapper{
 		return jen.Var().Id("_").Op("=").Map(jen.Int()).Int().Values(jen.Dict{jen.Lit(1): q, jen.Lit(2): jen.Lit(3)})
 	}},
 	{"addnull", true, func(q jen.Code, n int) jen.Code { return jen.Var().Id("_").Op("=").Add(jen.Null(), q) }},
-	{"params", true, func(q jen.Code, n int) jen.Code {
-		return jen.Func().Id(fmt.Sprintf("Zfn%d", n)).Params(jen.Id("a").Index(jen.Id("len").Call(jen.Index().Int().Values(q))).Int()).Block()
+	{"return-parens", true, func(q jen.Code, n int) jen.Code {
+		return jen.Func().Id(fmt.Sprintf("Zfn%d", n)).Params().Int().Block(jen.Return(jen.Parens(q)))
 	}},
 	{"dictkey-nullvalue", false, func(q jen.Code, n int) jen.Code {
 		return jen.Var().Id("_").Op("=").Map(jen.Int()).Int().Values(jen.Dict{q: jen.Null(), jen.Lit(2): jen.Lit(3)})
@@ -210,12 +210,12 @@ func (w *World) CgoPreamble(s string) {
 
 // Spec is one import spec of the output.
 type Spec struct {
-	Name  string // "" when no name is written
-	Path  string
-	Decl  int    // index of its import declaration
-	Doc   string // doc comment text of the declaration (raw, with markers)
-	Alone bool   // the only spec of its declaration
-	Line  int
+	Name       string // "" when no name is written
+	Path       string
+	Decl       int    // index of its import declaration
+	Doc        string // doc comment text of the declaration (raw, with markers)
+	Alone      bool   // the only spec of its declaration
+	Line       int
 	DocEndLine int
 }
 
@@ -226,12 +226,12 @@ type Use struct {
 
 // Analysis of one rendered file.
 type Analysis struct {
-	Src      string
-	File     *ast.File
-	Fset     *token.FileSet
-	Specs    []Spec
-	Uses     []Use
-	TypeErrs []string
+	Src            string
+	File           *ast.File
+	Fset           *token.FileSet
+	Specs          []Spec
+	Uses           []Use
+	TypeErrs       []string
 	NumImportDecls int
 }
 
